@@ -82,7 +82,7 @@ def verify_authentication_response(
         credential = parse_authentication_credential_json(credential)
 
     # FIDO-specific check
-    if bytes_to_base64url(credential.raw_id) != credential.id:
+    if bytes_to_base64url(byteslike_to_bytes(credential.raw_id)) != credential.id:
         raise InvalidAuthenticationResponse("id and raw_id were not equivalent")
 
     # FIDO-specific check
@@ -162,7 +162,7 @@ def verify_authentication_response(
     signature_base = authenticator_data_bytes + client_data_hash_bytes
 
     try:
-        decoded_public_key = decode_credential_public_key(credential_public_key)
+        decoded_public_key = decode_credential_public_key(byteslike_to_bytes(credential_public_key))
         crypto_public_key = decoded_public_key_to_cryptography(decoded_public_key)
 
         verify_signature(
